@@ -3,7 +3,8 @@ LEVEL_TEXT = ('Bounded model checking of the record scanner of the lazy loader (
   'against a reference scanner, for every record body within the byte bound.')
 SRCS = ['src/cllazyfile/sectionReader.cc', 'src/cllazyfile/lazyP21DataSectionReader.cc', 'src/cllazyfile/lazyDataSectionReader.cc', 'src/clutils/Str.cc', 'src/clstepcore/sdai.cc', 'src/cldai/sdaiEnum.cc', 'src/cldai/sdaiString.cc']
 FNS = '_ZN13sectionReader16findNormalStringERKSt6stringb'
-SRCS_NOSTR = [x for x in SRCS if x != 'src/clutils/Str.cc']
+SRCS_NOSTR = SRCS   # Str.cc stays linked; its GetLiteralStr is compiled under another name (RENAME) and the proven contract takes its place
+RENAME = {'src/clutils/Str.cc': ['-DGetLiteralStr=GetLiteralStr__real']}
 COMMON = dict(wrapper='harness/C10/wrap_lazy.cc', irc_extra_cc=['harness/common/errordesc_stub.cc'], entry='harness',
     cflags=['-I/repo/src/cllazyfile', '-I/repo/include/cllazyfile', '-I/repo/include/clutils', '-I/repo/src/clutils'], native_cflags=['-I/repo/src/cllazyfile', '-I/repo/include/cllazyfile', '-I/repo/src/clutils', '-fno-sanitize=vptr'],
     native_lib=['src/clstepcore', 'src/clutils', 'src/cldai', 'src/cleditor', 'src/cllazyfile'],
@@ -15,18 +16,18 @@ HARNESSES = [
     bounds='every stream of <= 6 (9) bytes over {quote backslash S a blank # (}',
     samples=[{'txt': "'a'"}, {'txt': "'a''a' #"}, {'txt': "'\\\\S\\\\'a'"}, {'txt': " 'a"}, {'txt': "a'a'"}, {'txt': "''''"}],
     stubs=['std::ifstream: vstd in-memory stream', 'ErrorDescriptor: severity-only stub (harness/common/errordesc_stub.cc)'],
-    out_of_claim='the text GetLiteralStr returns (the scanner call sites discard it; the eager reader\'s use is checked under C09)', **COMMON),
-  H('seek_end', 'irc', 'harness/C10/h_next.c', repo_srcs=SRCS_NOSTR,
-    defs={'quick': {'SEEK_ONLY': 1, 'GLS_CONTRACT': 1, 'NB': 4, 'VSTR_CAP': 4, 'VSTREAM_CAP': 9, 'VOSTREAM_CAP': 4, 'VCONT_CAP': 4}, 'thorough': {'SEEK_ONLY': 1, 'GLS_CONTRACT': 1, 'NB': 6, 'VSTR_CAP': 4, 'VSTREAM_CAP': 11, 'VOSTREAM_CAP': 4, 'VCONT_CAP': 4}},
-    unwind={'quick': 9, 'thorough': 11}, timeout={'quick': 1500, 'thorough': 7200},
-    bounds='parameter list ( body ) [blank] ; with body = every byte string of <= 4 (6) bytes over {# 1 2 quote / * ( ) , blank a}',
+    out_of_claim='the text GetLiteralStr returns beyond its emptiness (the scanner call sites discard it; the eager reader\'s use is checked under C09)', **COMMON),
+  H('seek_end', 'irc', 'harness/C10/h_next.c', repo_srcs=SRCS_NOSTR, irc_src_flags=RENAME,
+    defs={'quick': {'SEEK_ONLY': 1, 'GLS_CONTRACT': 1, 'NB': 4, 'VSTR_CAP': 4, 'VSTREAM_CAP': 9, 'VOSTREAM_CAP': 4, 'VCONT_CAP': 4}, 'thorough': {'SEEK_ONLY': 1, 'GLS_CONTRACT': 1, 'NB': 5, 'VSTR_CAP': 4, 'VSTREAM_CAP': 10, 'VOSTREAM_CAP': 4, 'VCONT_CAP': 4}},
+    unwind={'quick': 9, 'thorough': 10}, timeout={'quick': 1500, 'thorough': 7200},
+    bounds='parameter list ( body ) [blank] ; with body = every byte string of <= 4 (5) bytes over {# 1 2 quote / * ( ) , blank a}',
     samples=[{'body': '#1,#2'}, {'body': "'#1'"}, {'body': '/*#1*/'}, {'body': '(#2)'}, {'body': "'a"}, {'body': '# a'}, {'body': "''';"}, {'body': '/*/*'}],
     stubs=['GetLiteralStr: replaced by GetLiteralStr_contract, proven equivalent in stream effect by gls_equiv', 'reader / lazyFileReader / lazyInstMgr: zeroed typed storage with only the fields the scanner touches (no judy arrays, no file)', 'std::ifstream: vstd in-memory stream', 'unreached callees of the linked translation units may lack bodies (allow_undef=*)'],
     out_of_claim='agreement with the eager reader, the reverse-reference table and dependency closure (judy arrays), loadInstance, header section, complex instances, multi-record files', **COMMON),
-  H('next_instance', 'irc', 'harness/C10/h_next.c', repo_srcs=SRCS_NOSTR,
-    defs={'quick': {'GLS_CONTRACT': 1, 'NB': 1, 'VSTR_CAP': 6, 'VSTREAM_CAP': 14, 'VOSTREAM_CAP': 4, 'VCONT_CAP': 4}, 'thorough': {'GLS_CONTRACT': 1, 'NB': 3, 'VSTR_CAP': 6, 'VSTREAM_CAP': 16, 'VOSTREAM_CAP': 4, 'VCONT_CAP': 4}},
-    unwind={'quick': 14, 'thorough': 16}, timeout={'quick': 1200, 'thorough': 7200},
-    bounds='one record #d[d] = A[B] ( body ) ; with every combination of optional blanks, one- or two-digit ids incl. a leading zero, one- or two-letter keyword; body = every byte string of <= 1 (3) bytes over {# 1 2 quote / * ( ) , blank a} (longer bodies: seek_end)',
+  H('next_instance', 'irc', 'harness/C10/h_next.c', repo_srcs=SRCS_NOSTR, irc_src_flags=RENAME, tiers=('thorough',),   # 28 min (measured): thorough tier only
+    defs={'GLS_CONTRACT': 1, 'NB': 1, 'VSTR_CAP': 6, 'VSTREAM_CAP': 14, 'VOSTREAM_CAP': 4, 'VCONT_CAP': 4},
+    unwind=14, timeout=3600,
+    bounds='one record #d[d] = A[B] ( body ) ; with every combination of optional blanks, one- or two-digit ids incl. a leading zero, one- or two-letter keyword; body = every byte string of <= 1 byte over {# 1 2 quote / * ( ) , blank a} (longer bodies: seek_end)',
     samples=[{'body': '#1,#2', 'd1': 5, 'd2': 10, 'k2': 0, 'sp': 0}, {'body': "'#1'", 'd1': 1, 'd2': 2, 'k2': 1, 'sp': 7}, {'body': '/*#1*/', 'd1': 3, 'd2': 10, 'k2': 0, 'sp': 1}, {'body': '(#2)', 'd1': 4, 'd2': 10, 'k2': 1, 'sp': 2}, {'body': "'a", 'd1': 4, 'd2': 10, 'k2': 1, 'sp': 0}, {'body': '# a', 'd1': 4, 'd2': 10, 'k2': 1, 'sp': 0}],
     stubs=['GetLiteralStr: replaced by GetLiteralStr_contract, proven equivalent in stream effect by gls_equiv', 'reader / lazyFileReader / lazyInstMgr: zeroed typed storage with only the fields the scanner touches (no judy arrays, no file)', 'std::ifstream: vstd in-memory stream', 'unreached callees of the linked translation units may lack bodies (allow_undef=*)'],
     out_of_claim='agreement with the eager reader, the reverse-reference table and dependency closure (judy arrays), loadInstance, header section, complex instances, multi-record files', **COMMON),
